@@ -110,3 +110,13 @@ Proof.
   destruct (Z.leb_spec (t0 + d) (now s)); [|lia]. rewrite Hr. eexists. split; [apply getop_updop_same; exact Hc|]. cbn. repeat split.
 Qed.
 End StreamTimer.
+
+(* the probe of round 0 on the real code, replayed on the model: a 5 s timeout, an entry arriving at t = 3 s, then silence;
+   the first next() returns the entry at 3 s, the second one is still pending at 7 s (the search started 7 s ago) and fails at 8 s *)
+Example c12_stream_timer_probe :
+  let e := mkResp 1 REntry 11 in
+  let upto7 := [Start (KSearch false) (Some 5); DrvOp; CliPoll 0; Advance 3; ServerSend e; DrvResp; StreamNext 0; StreamNext 0; Advance 4; StreamNext 0] in
+  let s7 := run as_is upto7 in let s8 := run as_is (upto7 ++ [Advance 1; StreamNext 0]) in
+  option_map o_got (getop s7 0%nat) = Some [e] /\ option_map o_status (getop s7 0%nat) = Some SActive /\ now s7 = 7 /\ scrubq s7 = [] /\
+  option_map o_status (getop s8 0%nat) = Some SError /\ now s8 = 8 /\ scrubq s8 = [1] /\ option_map o_rx (getop s8 0%nat) = Some true.
+Proof. vm_compute. repeat split. Qed.
